@@ -75,7 +75,8 @@ def clean_room(mods):
     rc, out = sh(["lake", "build", "Traph", "driver", "Proofs", "Props"], cwd=dst, timeout=6000)
     r = {"build_rc": rc, "build_out": out[-3000:] if rc != 0 else "", "checker_rc": -1, "checker_out": ""}
     if rc == 0:
-        rc3, out3 = sh(["lake", "env", "leanchecker"] + mods, cwd=dst, timeout=6000)
+        allmods = list(mods) + ["Proofs." + x[:-5] for x in sorted(os.listdir(os.path.join(dst, "Proofs"))) if x.endswith(".lean")]
+        rc3, out3 = sh(["lake", "env", "leanchecker"] + allmods, cwd=dst, timeout=6000)
         r["checker_rc"], r["checker_out"] = rc3, (out3[-2000:] if rc3 != 0 else "")
     shutil.rmtree(os.path.join(dst, ".lake"), ignore_errors=True)
     if r["build_rc"] == 0 and r["checker_rc"] == 0:      # failures are not cached: the next run tries again
@@ -92,9 +93,23 @@ def build(tier="quick"):
     with open(os.path.join(LEAN, ".lake", "verif.lock"), "w") as lock:
         fcntl.flock(lock, fcntl.LOCK_EX)
         try:
-            return _build(tier)
+            res = _build(tier)
         finally:
             fcntl.flock(lock, fcntl.LOCK_UN)
+    if tier == "thorough" and res["ok_proofs"] and os.environ.get("VERIF_NO_CLEAN") != "1":
+        # from-clean build + leanchecker in a private copy, under its own lock (quick checks are not held up by it)
+        with open(os.path.join(ROOT, ".cleanroom.lock"), "w") as lock:
+            fcntl.flock(lock, fcntl.LOCK_EX)
+            try:
+                cr = clean_room(res["audit_mods"])
+            finally:
+                fcntl.flock(lock, fcntl.LOCK_UN)
+        res["clean_build"] = "ok" if cr["build_rc"] == 0 else cr["build_out"]
+        res["leanchecker"] = "ok" if cr["checker_rc"] == 0 else cr["checker_out"]
+        if cr["build_rc"] != 0 or cr["checker_rc"] != 0:
+            res["ok_proofs"] = False
+            res["log"] += "\nCLEAN ROOM:\n" + cr["build_out"] + "\n" + cr["checker_out"]
+    return res
 
 
 def _build(tier):
@@ -150,13 +165,7 @@ def _build(tier):
     res["bad_axioms"] = bad_axioms
     res["missing"] = [n for n in names if n not in res["theorems"]]
     res["ok_proofs"] = proofs_built and rc2 == 0 and not res["forbidden"] and not bad_axioms and not res["missing"]
-    if tier == "thorough" and res["ok_proofs"] and os.environ.get("VERIF_NO_CLEAN") != "1":
-        cr = clean_room(mods)
-        res["clean_build"] = "ok" if cr["build_rc"] == 0 else cr["build_out"]
-        res["leanchecker"] = "ok" if cr["checker_rc"] == 0 else cr["checker_out"]
-        if cr["build_rc"] != 0 or cr["checker_rc"] != 0:
-            res["ok_proofs"] = False
-            res["log"] += "\nCLEAN ROOM:\n" + cr["build_out"] + "\n" + cr["checker_out"]
+    res["audit_mods"] = mods
     res["wall_s"] = round(time.time() - t0, 2)
     try:
         res["ast_hashes"] = json.load(open(os.path.join(LEAN, "ast_hashes.json")))
